@@ -1199,7 +1199,7 @@ MIN_COVERED = 0.98     # of the constructed bijections; measured 1.00 on seeds 0
 MIN_COVERED_OBJECTS = 0.88   # *_objects theorems; measured 0.933-0.941 (the rest: StatAtom leaves), seeds 0, 1, 2
 
 
-def extra_checks(ctx):
+def _extra_covered(ctx):
     """on how many constructed bijections the hypotheses of C12_transport_inverse hold as DECIDED verdicts: wf_spec of
     both descriptors (wf_specb in the extracted run = Desc.wf here, compared by the core) and valid_cert of the order
     map the real code built (check_cert in the extracted run, 1 expected here: a 0 is a mismatch); fails when the
@@ -1278,7 +1278,12 @@ def classify(case, res):
 def extra_checks(ctx):
     """coverage REQUIREMENTS (each can fail): the verdicts of this check are only worth something if the inputs reach
     the branches they talk about"""
-    out = []
+    out = list(_extra_covered(ctx))
+    out.append(("repair 91c1aef in force: the witness pair of C12_symmetric_refuted is answered False in both directions "
+                "(the model runs with exact = %d)" % exact_mode(), exact_mode() == 1,
+                "ok" if exact_mode() == 1 else "failing input: the specifications of grammars ASYM_G1 / ASYM_G2 (harness/props/c12.py; "
+                "findings/C12_asymmetric_check.py): Isomorphism.check(s1, s2) and Isomorphism.check(s2, s1) are not both False "
+                "(answers differ by direction, or raise) - clause 'are_isomorphic is symmetric' / the fixed finding returned"))
     hf = {k: v for k, v in COVER.items() if k.startswith("hypothesis-fails:")}
     out.append(("no case violates a hypothesis of the theorems (tag hypothesis-fails:*)", not hf,
                 "0 cases" if not hf else "the descriptor well-formedness the theorems assume fails: %r - the theorems do "
